@@ -80,6 +80,8 @@ def read_patch_meta(path):
 
 def run_check_on(tree, prop, seconds, extra_env=None):
     env = dict(os.environ, VERIF_REPO=tree, VERIF_QUICK_VARIANT='plain')
+    if prop == 'C19':
+        env.pop('VERIF_QUICK_VARIANT')  # its second phase is the build with assertions enabled: keep it
     env.update(extra_env or {})
     r = subprocess.run([os.path.join(D.ROOT, 'bin', 'check'), prop, '--tier', 'quick', '--seconds', str(seconds)], stdout=subprocess.PIPE, stderr=subprocess.STDOUT, text=True,
                        env=env, errors='replace')
